@@ -1,4 +1,180 @@
-//! STARK half of C04 (filled in together with the starky workloads).
-use crate::mon::Run;
+//! STARK part of C04: transcript dependency monitor over `StarkProofWithPublicInputs::get_challenges`.
 
-pub fn monitor_starks(_run: &mut Run) {}
+use plonky2::field::goldilocks_field::GoldilocksField as F;
+use plonky2::field::types::PrimeField64;
+use plonky2::iop::challenger::Challenger;
+use plonky2::plonk::config::{GenericConfig, PoseidonGoldilocksConfig};
+use rand::Rng;
+use serde_json::{json, Value};
+use starky::config::StarkConfig;
+use starky::proof::{StarkProofChallenges, StarkProofWithPublicInputs};
+
+use crate::mon::{catch, Run};
+use crate::props::c09::stark_prove;
+use crate::stk::{self, GenStark, Generated, D};
+use crate::tamper;
+
+type C = PoseidonGoldilocksConfig;
+type H = <C as GenericConfig<D>>::Hasher;
+
+/// 0 lookup challenges, 1 alphas, 2 zeta, 3 fri_alpha, 4.. fri betas, pow response, query indices
+fn groups(ch: &StarkProofChallenges<F, D>) -> Vec<Vec<u64>> {
+    let mut g = vec![];
+    g.push(ch.lookup_challenge_set.as_ref().map(|s| s.challenges.iter().flat_map(|c| [c.beta.to_canonical_u64(), c.gamma.to_canonical_u64()]).collect()).unwrap_or_default());
+    g.push(ch.stark_alphas.iter().map(|x| x.to_canonical_u64()).collect());
+    g.push(vec![ch.stark_zeta.0[0].to_canonical_u64(), ch.stark_zeta.0[1].to_canonical_u64()]);
+    g.push(vec![ch.fri_challenges.fri_alpha.0[0].to_canonical_u64(), ch.fri_challenges.fri_alpha.0[1].to_canonical_u64()]);
+    for b in &ch.fri_challenges.fri_betas {
+        g.push(vec![b.0[0].to_canonical_u64(), b.0[1].to_canonical_u64()]);
+    }
+    g.push(vec![ch.fri_challenges.fri_pow_response.to_canonical_u64()]);
+    g.push(ch.fri_challenges.fri_query_indices.iter().map(|x| *x as u64).collect());
+    g
+}
+
+fn group_name(g: usize, n: usize) -> String {
+    match g {
+        0 => "lookup_challenges".into(),
+        1 => "stark_alphas".into(),
+        2 => "stark_zeta".into(),
+        3 => "fri_alpha".into(),
+        x if x == n - 1 => "query_indices".into(),
+        x if x == n - 2 => "pow_response".into(),
+        _ => "fri_beta".into(),
+    }
+}
+
+fn first_dep(class: &str, cap_idx: usize, n_commit: usize) -> Option<usize> {
+    match class {
+        "statement" | "public_input" | "trace_cap" => Some(0),
+        "auxiliary_polys_cap" => Some(1),
+        "quotient_polys_cap" => Some(2),
+        c if c.starts_with("openings.") => Some(3),
+        "fri.commit_phase_cap" => Some(4 + cap_idx),
+        "fri.final_poly" | "fri.pow_witness" => Some(4 + n_commit),
+        _ => None,
+    }
+}
+
+fn compare(run: &mut Run, pidx: u64, desc: &Value, base: &[Vec<u64>], new: &[Vec<u64>], dep: Option<usize>, what: &str, qi: bool) {
+    let n = base.len();
+    for g in 0..n.min(new.len()) {
+        if base[g].is_empty() && new[g].is_empty() {
+            continue;
+        }
+        let must = matches!(dep, Some(f) if g >= f);
+        run.eval();
+        if must {
+            if g == n - 1 && !qi {
+                continue;
+            }
+            run.count("stark.pairs.must_change", 1);
+            if base[g] == new[g] {
+                run.violation(&format!("stark.challenge_group_{}_unchanged_after_altering.{what}", group_name(g, n)), pidx, json!({"proof": desc, "component": what}));
+            }
+        } else {
+            run.count("stark.pairs.must_not_change", 1);
+            if base[g] != new[g] {
+                run.violation(&format!("stark.challenge_group_{}_changed_by_later_or_unabsorbed.{what}", group_name(g, n)), pidx, json!({"proof": desc, "component": what}));
+            }
+        }
+    }
+}
+
+fn monitor<const COLS: usize, const PIS: usize>(run: &mut Run, pidx: u64, lookups: bool) {
+    let mut rng = crate::mon::case_rng(run.seed, 4_500, pidx);
+    let degree = if lookups { 3 } else { [2usize, 3, 1][rng.gen_range(0..3)] };
+    let log_n = rng.gen_range(4..=7);
+    let Generated { spec, trace, pis } = if lookups { stk::gen_lookup_family(&mut rng, COLS, PIS, degree, log_n) } else { stk::gen_family(&mut rng, COLS, PIS, degree, log_n) };
+    let mut config = stk::gen_stark_config(&mut rng, degree, true);
+    config.fri_config.num_query_rounds = config.fri_config.num_query_rounds.max(8);
+    let stark = GenStark::<COLS, PIS>::new(spec.clone());
+    let proof = match stark_prove(&stark, &config, &trace, &pis) {
+        Ok(p) => p,
+        Err(e) => {
+            run.count(&format!("stark.pool_member_not_built: {}", crate::mon::msg_class(&e).chars().take(50).collect::<String>()), 1);
+            return;
+        }
+    };
+    let chal = |p: &StarkProofWithPublicInputs<F, C, D>, cfg: &StarkConfig| -> Option<Vec<Vec<u64>>> {
+        catch(|| {
+            let mut ch = Challenger::<F, H>::new();
+            p.get_challenges(&stark, &mut ch, None, None, false, cfg, None)
+        })
+        .ok()
+        .map(|c| groups(&c))
+    };
+    let base = match chal(&proof, &config) {
+        Some(b) => b,
+        None => {
+            run.inconclusive("stark get_challenges failed on an honest proof");
+            return;
+        }
+    };
+    let n_commit = proof.proof.opening_proof.commit_phase_merkle_caps.len();
+    let qi = log_n + config.fri_config.rate_bits >= 6;
+    let desc = json!({"stark": spec.describe(), "log_n": log_n, "config": stk::describe_stark_config(&config), "commit_phase_caps": n_commit, "has_lookup_challenges": !base[0].is_empty()});
+    run.sample(json!({"stark_transcript": desc}));
+    run.count("stark.proofs", 1);
+    let cap_sizes: Vec<usize> = proof.proof.opening_proof.commit_phase_merkle_caps.iter().map(|c| c.0.len()).collect();
+    let mut commit_slot = 0usize;
+    let n = tamper::count_stark_slots::<C>(&proof);
+    for k in 0..n {
+        let (q, class) = tamper::tamper_stark_at::<C>(&proof, k, (k % 2) as u8, rng.gen());
+        let mut cap_idx = 0;
+        if class == "fri.commit_phase_cap" {
+            let mut acc = 0;
+            for (ci, sz) in cap_sizes.iter().enumerate() {
+                if commit_slot < acc + sz {
+                    cap_idx = ci;
+                    break;
+                }
+                acc += sz;
+            }
+            commit_slot += 1;
+        }
+        let dep = first_dep(class, cap_idx, n_commit);
+        if dep.is_none() && k % 23 != 0 {
+            continue;
+        }
+        run.nontrivial(("stark", pidx, class, cap_idx));
+        run.count(&format!("stark.components.{class}"), 1);
+        if let Some(new) = chal(&q, &config) {
+            compare(run, pidx, &desc, &base, &new, dep, class, qi);
+        }
+    }
+    let edits: Vec<(&str, Box<dyn Fn(&mut StarkConfig)>)> = vec![
+        ("config.security_bits", Box::new(|c| c.security_bits += 1)),
+        ("config.num_challenges", Box::new(|c| c.num_challenges += 1)),
+        ("config.fri.rate_bits", Box::new(|c| c.fri_config.rate_bits += 1)),
+        ("config.fri.cap_height", Box::new(|c| c.fri_config.cap_height += 1)),
+        ("config.fri.proof_of_work_bits", Box::new(|c| c.fri_config.proof_of_work_bits += 1)),
+        ("config.fri.num_query_rounds", Box::new(|c| c.fri_config.num_query_rounds += 1)),
+        ("config.fri.reduction_strategy", Box::new(|c| c.fri_config.reduction_strategy = plonky2::fri::reduction_strategies::FriReductionStrategy::Fixed(vec![1, 1, 2]))),
+    ];
+    for (name, edit) in edits {
+        let mut c2 = config.clone();
+        edit(&mut c2);
+        run.count("stark.components.config_field", 1);
+        run.nontrivial(("stark", pidx, name));
+        if let Some(new) = chal(&proof, &c2) {
+            compare(run, pidx, &desc, &base, &new, Some(0), name, false);
+        }
+    }
+}
+
+pub fn monitor_starks(run: &mut Run) {
+    let n: u64 = run.pick(8, 60);
+    for i in 0..n {
+        let pidx = 5_000 + i;
+        if run.skip_case(pidx) {
+            continue;
+        }
+        match i % 4 {
+            0 => monitor::<3, 2>(run, pidx, false),
+            1 => monitor::<6, 0>(run, pidx, true),
+            2 => monitor::<8, 4>(run, pidx, false),
+            _ => monitor::<9, 0>(run, pidx, true),
+        }
+    }
+}
